@@ -222,3 +222,103 @@ func verifSameFieldsAny(a, b []DecodedField) bool {
 	}
 	return verifSameFields(a, b)
 }
+
+// 1b. a set that is undecodable because its (announced) template names an element the
+// information model does not have — as an ordinary field in first or second position, or as the
+// scope field of an options template. Such a set is skipped as a whole; the records of the other
+// sets are emitted exactly as if it were absent.
+func VerifIPFIXUnknownElementSet() {
+	m, a, t := verifSetup()
+	// the broken template
+	bid := verifNondetU16()
+	verifAssume(verifAll(bid > 255, bid != t.tid, bid != t.decoy))
+	if verifKnown("C04-hash-collision") {
+		verifAssume(verifAll(verifFNV4(a, bid) != verifFNV4(a, t.tid), verifFNV4(a, bid) != verifFNV4(a, t.decoy)))
+	}
+	unk := verifNondetU16()
+	verifAssume(unk < 0x8000)
+	_, have := InfoModel[ElementKey{0, unk}]
+	verifAssume(!have)
+	shape := verifCase(3)
+	{
+		tl := 4 + 4 + 8
+		if shape == 2 {
+			tl = 4 + 6 + 8
+		}
+		w := &verifW{b: make([]byte, 16+tl)}
+		verifWriteHeader(w, 16+tl)
+		known := t.f1.spec.ElementID
+		switch shape {
+		case 0: // plain: unknown element first
+			w.u16(2)
+			w.u16(uint16(tl))
+			w.u16(bid)
+			w.u16(2)
+			w.u16(unk)
+			w.u16(4)
+			w.u16(known)
+			w.u16(4)
+		case 1: // plain: unknown element second
+			w.u16(2)
+			w.u16(uint16(tl))
+			w.u16(bid)
+			w.u16(2)
+			w.u16(known)
+			w.u16(4)
+			w.u16(unk)
+			w.u16(4)
+		default: // options template: the scope field is the unknown element
+			w.u16(3)
+			w.u16(uint16(tl))
+			w.u16(bid)
+			w.u16(2)
+			w.u16(1)
+			w.u16(unk)
+			w.u16(4)
+			w.u16(known)
+			w.u16(4)
+		}
+		verifAssume(!t.ent1) // the known element is referenced without an enterprise number
+		msg, err := NewDecoder(a, w.b).Decode(m)
+		verifAssume(verifAll(err == nil, msg != nil))
+	}
+	r1, r2 := verifArbRec(), verifArbRec()
+	tot := 16 + 4 + r1.len() + 4 + r2.len()
+	w := &verifW{b: make([]byte, tot)}
+	verifWriteHeader(w, tot)
+	verifDataSet(w, t, r1)
+	verifDataSet(w, t, r2)
+	ref, _ := NewDecoder(a, w.b).Decode(m)
+	verifAssume(ref != nil)
+	verifAssert(len(ref.DataSets) == 2, "the unperturbed message yields its two records")
+	p := verifCase(3)
+	blen := [3]int{8, 16, 12}[verifCase(3)]
+	body := verifNondetBytes(blen)
+	bad := func(w *verifW) {
+		w.u16(bid)
+		w.u16(uint16(4 + blen))
+		for i := 0; i < blen; i++ {
+			w.u8(body[i])
+		}
+	}
+	tot2 := tot + 4 + blen
+	w2 := &verifW{b: make([]byte, tot2)}
+	verifWriteHeader(w2, tot2)
+	if p == 0 {
+		bad(w2)
+	}
+	verifDataSet(w2, t, r1)
+	if p == 1 {
+		bad(w2)
+	}
+	verifDataSet(w2, t, r2)
+	if p == 2 {
+		bad(w2)
+	}
+	got, _ := NewDecoder(a, w2.b).Decode(m)
+	verifAssert(got != nil, "a message with an undecodable set is still decoded")
+	verifAssert(len(got.DataSets) == 2, "the records of the other sets are all emitted, and nothing else (no record is made up from a set whose template names an unknown element)")
+	verifAssert(verifSameFields(got.DataSets[0], ref.DataSets[0]), "first record unchanged")
+	verifAssert(verifSameFields(got.DataSets[1], ref.DataSets[1]), "second record unchanged")
+	verifReach("end")
+}
